@@ -201,7 +201,7 @@ theorem run_revokeProg (rc : RunCfg) (hp : Plain rc) (q : RevokeReq) (rs : RStat
       · simp only [hc, Bool.false_eq_true, if_false]
         cases (benignRevocationErr (revokeRefreshS rs.ss.store ar.id).snd.errKind &&
             benignRevocationErr (revokeAccessS (revokeRefreshS rs.ss.store ar.id).fst ar.id).snd.errKind) <;> simp [closeOut]
-    | ok | notFound | inactive _ | client _ | nat _ | fail _ =>
+    | ok | notFound | inactive _ | client _ | nat _ | fail _ | par _ | dev _ | usedDev _ =>
       all_goals (
         try simp only
         rw [run_HPbind, run_callH]
@@ -227,7 +227,7 @@ theorem run_revokeProg (rc : RunCfg) (hp : Plain rc) (q : RevokeReq) (rs : RStat
           · simp only [hc, Bool.false_eq_true, if_false]
             cases (benignRevocationErr (revokeRefreshS rs.ss.store ar.id).snd.errKind &&
                 benignRevocationErr (revokeAccessS (revokeRefreshS rs.ss.store ar.id).fst ar.id).snd.errKind) <;> simp [closeOut]
-        | ok | notFound | inactive _ | client _ | nat _ | fail _ =>
+        | ok | notFound | inactive _ | client _ | nat _ | fail _ | par _ | dev _ | usedDev _ =>
           all_goals (
             try simp only
             rw [run_revocationError]
